@@ -91,9 +91,13 @@ class Sem:
                     b_ = b_.value
                 if isinstance(b_, ast.Name):
                     self._mutated.add(b_.id)
-            elif isinstance(n, ast.Call) and isinstance(n.func, ast.Attribute) and isinstance(n.func.value, ast.Name) \
+            elif isinstance(n, ast.Call) and isinstance(n.func, ast.Attribute) \
                     and n.func.attr in ("append", "extend", "insert", "sort", "update", "add", "pop", "remove", "clear", "setdefault", "fill"):
-                self._mutated.add(n.func.value.id)
+                b_ = n.func.value
+                while isinstance(b_, ast.Subscript):
+                    b_ = b_.value
+                if isinstance(b_, ast.Name):
+                    self._mutated.add(b_.id)
         self._caller: Optional[Tuple["Sem", ast.Call, Dict[str, ast.AST]]] = None
         self._caller_done = False
         self.subst_consts = True   # substitute module-level literal constants
